@@ -125,16 +125,39 @@ def _instant_order(ctx) -> None:
                f"{[nun(x) for x in bare]}: a native comparison of the endpoints ignores fold when both share one tzinfo, so inside a "
                f"repeated hour the later instant can compare as earlier (negative absolute length, wrong invert flag)", m.loc(bare[0]) if bare else m.loc(fn))
     if m.has_func("_is_after"):
+        # whatever its shape: some leaf of the helper must order aware operands through their UTC offsets (utcoffset() of both,
+        # or astimezone() of both), and the bare wall-clock comparison may only remain on leaves that exclude that case
+        from .. import sem
         fn = m.func("_is_after")
         a, b = core.params(fn, drop_self=False)[:2]
-        ok = False
-        for p in cfg.paths(fn):
-            if p.holds(f"{a}.tzinfo is {b}.tzinfo") is True:
-                ex = p.exit()
-                v = nun(ex[2].value) if ex[1] == "return" else ""
-                ok = v in (f"{a}.astimezone(timezone.utc) > {b}.astimezone(timezone.utc)",
-                           f"{a} - {a}.utcoffset() > {b} - {b}.utcoffset()")
-        ctx.ob("ORDER.instant", "_is_after/same-tzinfo", ok, "aware endpoints sharing one tzinfo must be compared after conversion to UTC", m.loc(fn))
+        try:
+            lv = sem.leaves_of(m, "_is_after")
+        except (sem.Giveup, core.Unsupported, KeyError, AttributeError) as e:
+            ctx.unverified("ORDER.instant", "_is_after/same-tzinfo", str(e), m.loc(fn))
+            return
+
+        def instant(txt: str) -> bool:
+            return (f"{a}.utcoffset()" in txt and f"{b}.utcoffset()" in txt) or (f"{a}.astimezone(" in txt and f"{b}.astimezone(" in txt)
+        inst = [(c, it) for c, it in lv if any(x[0] == "exit" and x[1] == "return" and instant(str(x[2])) for x in it)]
+        bare = [(c, it) for c, it in lv if any(x[0] == "exit" and x[1] == "return" and not instant(str(x[2])) for x in it)]
+        def excluded(c: dict) -> bool:
+            """the leaf's conditions rule out 'two aware datetimes with one tzinfo'"""
+            for k, v in c.items():
+                if "isinstance(" in k and "datetime" in k and v is False:
+                    return True
+                if k.endswith(" is None") and ("tzinfo" in k or "utcoffset" in k) and v is True:
+                    return True
+                if ".tzinfo is " in k and not k.endswith(" is None") and v is False:
+                    return True
+            return False
+        guarded = all(excluded(c) for c, _ in bare)
+        if not lv:
+            ctx.unverified("ORDER.instant", "_is_after/same-tzinfo", "no leaves", m.loc(fn))
+        else:
+            ctx.ob("ORDER.instant", "_is_after/same-tzinfo", bool(inst) and guarded,
+                   f"{len(inst)} leaf/leaves order the operands by instant, {len(bare)} by the native comparison"
+                   + ("" if inst and guarded else "; aware endpoints sharing one tzinfo must be compared through their UTC offsets (the native "
+                      "comparison ignores fold)"), m.loc(fn))
 
 
 def _direction(ctx) -> None:
